@@ -32,7 +32,8 @@ REQUIRED = ["packet_ins", "buffered", "unbuffered_pool_full", "released_by_packe
             "bogus_uses", "truncated",
             "ids_reused_after_release", "advertised_buffer_counts_read",
             "packet_outs_with_buffer_id_and_data", "stale_or_bogus_ids_in_flow_mods",
-            "padded_frames_missing_the_table"]
+            "padded_frames_missing_the_table",
+            "misses_on_a_port_that_may_not_cause_packet_ins"]
 TIMEOUT = {"quick": 900, "thorough": 7200}
 
 NPORTS = 4
@@ -121,6 +122,15 @@ def run_history (case, rep):
   sw.feed(blob)
   if sw.take_bytes():
     fire("setup flow_mod rejected", ""); return True
+  # one port may be told not to cause packet-ins for what misses the table:
+  # such a frame is not announced - and takes no buffer either
+  quiet = case.get("quiet_port")
+  if quiet:
+    hwq = [p_["hw_addr"] for p_ in fr_[0]["ports"] if p_["port_no"] == quiet]
+    sw.feed(ofwire.enc_message("port_mod", dict(
+      xid=3, port_no=quiet, hw_addr=hwq[0], config=64, mask=64, advertise=0)))
+    if [m for m in ofwire.dec_stream(sw.take_bytes()) if m["name"] == "error"]:
+      fire("setup port_mod rejected", ""); return True
   miss_len = miss0
   outstanding = {}      # id -> (frame bytes, in_port)
   released = []         # ids used at least once
@@ -214,6 +224,13 @@ def run_history (case, rep):
       except ofwire.WireError as e:
         fire("switch emitted undecodable bytes", repr(e)); return True
       pins = [m for m in msgs if m["name"] == "packet_in"]
+      if k == "miss" and quiet and in_port == quiet:
+        rep.count("misses_on_a_port_that_may_not_cause_packet_ins")
+        if msgs or out:
+          fire("frame that misses the table on a NO_PACKET_IN port produced something",
+               "%r, data-plane output %r" % ([m["name"] for m in msgs], [p for p, _ in out]))
+          return True
+        continue
       if len(pins) != 1 or len(msgs) != 1 or out:
         fire("arrival did not produce exactly one packet-in",
              "%r, data-plane output %r" % ([m["name"] for m in msgs],
@@ -401,7 +418,8 @@ def do_case (case, rep):
     rep.violation("C18 harness-visible exception",
                   traceback.format_exc()[-900:], case)
     nt = True
-  rep.case(repr((case["pool"], case["ops"], case.get("miss0"))).encode(), nontrivial=bool(nt))
+  rep.case(repr((case["pool"], case["ops"], case.get("miss0"), case.get("quiet_port"))).encode(),
+           nontrivial=bool(nt))
 
 
 def gen (rng, n, maxlen):
@@ -430,6 +448,10 @@ def gen (rng, n, maxlen):
         ops.append(["cfg", rng.choice([0, 14, 64, 128, 0xffff])])
     case = dict(pool=pool, ops=ops)
     if rng.random() < 0.4: case["miss0"] = rng.choice([0, 14, 64, 0xffff])
+    if rng.random() < 0.3:
+      case["quiet_port"] = 4
+      for o in ops:
+        if o[0] == "miss" and rng.random() < 0.5: o[1] = 4
     yield case
 
 
